@@ -2,6 +2,7 @@ package rules
 
 import (
 	"go/token"
+	"sort"
 	"strings"
 
 	"kmcheck/internal/km"
@@ -33,91 +34,10 @@ func checkC07(c *km.Ctx) {
 	pa := c.MustFunc("R-C07-1", "lib/pwauth/ldap", "(*PasswordAuthenticator).passwordAuthenticate")
 	upd := c.MustFunc("R-C07-2", "lib/pwauth/ldap", "(*PasswordAuthenticator).updateOrDeletePasswordHash")
 	if pa == nil || upd == nil {
+		checkPasswordDispatch(c, s)
 		return
 	}
-	checkLDAP := authutilPkg + ".CheckLDAPUserPassword"
-	var ldapCall *ssa.Call
-	var updCall *ssa.Call
-	var cacheGet *ssa.Call
-	for _, ci := range km.CallsIn(pa) {
-		cl, ok := ci.(*ssa.Call)
-		if !ok {
-			continue
-		}
-		switch km.CalleeFull(cl.Common()) {
-		case checkLDAP:
-			ldapCall = cl
-		case ldapPA + "updateOrDeletePasswordHash":
-			updCall = cl
-		case storeIface + "GetSigned":
-			cacheGet = cl
-		}
-	}
-	if ldapCall == nil || updCall == nil || cacheGet == nil {
-		r.AnchorLost("R-C07-1", "CheckLDAPUserPassword / updateOrDeletePasswordHash / GetSigned calls in passwordAuthenticate")
-		return
-	}
-	answered := primErrNilCall("directory answered", ldapCall, 1)
-	// (a) answered edge returns the directory's boolean after the helper ran with it
-	nAns := 0
-	for _, rc := range s.RetCases(pa) {
-		if !rc.State.All(func(k km.Conj) bool { return s.Holds(k, answered) }) {
-			// a return that may be reached on the answered edge without the fact is handled by (b)
-			continue
-		}
-		nAns++
-		cl, idx := callRes(km.Unwrap(rc.Results[0]))
-		same := cl == ldapCall && idx == 0
-		helperRan := km.InstrDominates(updCall, rc.Ret)
-		a := km.CallArgs(updCall.Common())
-		hc, hidx := callRes(km.Unwrap(a[1]))
-		helperArgs := hc == ldapCall && hidx == 0 && km.Unwrap(a[2]) == ssa.Value(pa.Params[1]) && km.Unwrap(a[3]) == ssa.Value(pa.Params[2])
-		r.Add("R-C07-1", km.FuncName(pa), "return on the answered edge", posOf(c, rc.Ret), "returns exactly CheckLDAPUserPassword's boolean, after updateOrDeletePasswordHash(thatBoolean, user, password)", sprintf("same-boolean=%v helper-dominates=%v helper-args-ok=%v", same, helperRan, helperArgs), same && helperRan && helperArgs)
-	}
-	if nAns == 0 {
-		r.Add("R-C07-1", km.FuncName(pa), "return on the answered edge", c.P.Pos(pa.Pos()), "a return dominated by err == nil of CheckLDAPUserPassword exists", "none", false)
-	}
-	// (b) the cache block is unreachable from the answered edge
-	unreach := true
-	found := "cache consulted only after every server failed to answer"
-	for _, ref := range *ldapCall.Referrers() {
-		ex, ok := ref.(*ssa.Extract)
-		if !ok || ex.Index != 1 {
-			continue
-		}
-		for _, r2 := range *ex.Referrers() {
-			b, ok := r2.(*ssa.BinOp)
-			if !ok || (b.Op != token.NEQ && b.Op != token.EQL) || !km.IsNilConst(b.Y) {
-				continue
-			}
-			for _, r3 := range *b.Referrers() {
-				iff, ok := r3.(*ssa.If)
-				if !ok {
-					continue
-				}
-				okEdge := iff.Block().Succs[1] // err != nil is false
-				if b.Op == token.EQL {
-					okEdge = iff.Block().Succs[0]
-				}
-				if km.ReachableBlocks(okEdge, nil)[cacheGet.Block()] {
-					unreach = false
-					found = "the cache lookup at " + posOf(c, cacheGet) + " is reachable from the edge on which the directory answered (" + posOf(c, iff) + ")"
-				}
-			}
-		}
-	}
-	r.Add("R-C07-1", km.FuncName(pa), "cache unreachable once a server answered", posOf(c, cacheGet), "no CFG path from the err == nil edge of CheckLDAPUserPassword to the cache lookup", found, unreach)
-	// the directory is asked about the submitted user and password
-	la := ldapCall.Common().Args
-	bindOK := false
-	if bc, ok := km.Unwrap(la[1]).(*ssa.Call); ok && km.CalleeFull(bc.Common()) == ldapPkg+".convertToBindDN" && km.Unwrap(bc.Common().Args[0]) == ssa.Value(pa.Params[1]) {
-		bindOK = true
-	}
-	pwOK := false
-	if cv, ok := km.Unwrap(la[2]).(*ssa.Convert); ok && km.Unwrap(cv.X) == ssa.Value(pa.Params[2]) {
-		pwOK = true
-	}
-	r.Add("R-C07-1", km.FuncName(pa), "directory asked about the submitted credentials", posOf(c, ldapCall), "bind DN built from the user parameter; password is the password parameter", sprintf("bindDN-from-user=%v password-param=%v", bindOK, pwOK), bindOK && pwOK)
+	checkLDAPVerdict(c, s, pa, upd)
 
 	// ---------- R-C07-2
 	validTrue := km.Prim{Name: "valid", Direct: func(f km.Fact) bool {
@@ -179,30 +99,8 @@ func checkC07(c *km.Ctx) {
 		r.AnchorLost("R-C07-2", "assignment of expirationDuration")
 	}
 
-	// ---------- R-C07-3 cache acceptance
-	for _, rc := range s.RetCases(pa) {
-		if km.ValStr(rc.Results[0]) != "true" {
-			continue
-		}
-		getOK := primErrNilCall("GetSigned err==nil", cacheGet, 2)
-		found := km.Prim{Name: "record found", Direct: func(f km.Fact) bool {
-			cl, idx := callRes(f.X)
-			return f.Op == token.ILLEGAL && f.Pol && cl == cacheGet && idx == 0
-		}}
-		match := km.Prim{Name: "hash matches the submitted password", Direct: func(f km.Fact) bool {
-			cl, ok := f.X.(*ssa.Call)
-			if f.Op != token.EQL || !km.IsNilConst(f.Y) || !ok || km.CalleeFull(cl.Common()) != authutilPkg+".Argon2CompareHashAndPassword" {
-				return false
-			}
-			gc, gi := callRes(km.Unwrap(cl.Common().Args[0]))
-			return gc == cacheGet && gi == 1 && km.Unwrap(cl.Common().Args[1]) == ssa.Value(pa.Params[2])
-		}}
-		ok := rc.State.All(func(k km.Conj) bool { return s.Holds(k, getOK) && s.Holds(k, found) && s.Holds(k, match) })
-		ga := km.CallArgs(cacheGet.Common())
-		typ, tOK := km.ConstInt(ga[2])
-		argsOK := km.Unwrap(ga[1]) == ssa.Value(pa.Params[1]) && tOK && typ == 1
-		r.Add("R-C07-3", km.FuncName(pa), "cache acceptance", posOf(c, rc.Ret), "GetSigned(user, passwordDataType) returned a record without error and its hash matches the submitted password", sprintf("facts=%v lookup-args=%v", ok, argsOK), ok && argsOK)
-	}
+	checkUpsertStatements(c, "R-C07-2", "expiring_signed_user_data", []string{"jws_data", "expiration_epoch"}, 2)
+	// ---------- R-C07-3 (the acceptance of a cached record is judged in checkLDAPVerdict)
 	if gs := c.MustFunc("R-C07-3", "cmd/keymasterd", "(*RuntimeState).GetSigned"); gs != nil {
 		verified := primErrNil("record verified", RS+"getStorageDataFromStorageStringDataJWT", 1)
 		subject := km.Prim{Name: "subject == user", Direct: func(f km.Fact) bool {
@@ -392,6 +290,341 @@ func checkPasswordDispatch(c *km.Ctx, s *km.Sem) {
 			cl, idx := callRes(v)
 			ok := cl != nil && idx == 0 && km.CalleeFull(cl.Common()) == authutilPkg+".CheckHtpasswdUserPassword" && km.Unwrap(cl.Common().Args[0]) == ssa.Value(fn.Params[1])
 			r.Add("R-C07-4", km.FuncName(fn), "verdict returned", posOf(c, rc.Ret), "CheckHtpasswdUserPassword(user param, …) result", km.ValStr(v), ok)
+		}
+	}
+}
+
+// checkLDAPVerdict decides R-C07-1 and the LDAP half of R-C07-3 by tracing where each returned verdict of the
+// LDAP authenticator comes from, through whatever helpers the code is split into: a verdict is the directory's
+// own boolean (on the edge where the directory answered, with the refresh/evict helper run), or a refusal, or an
+// acceptance carried by a cached record - and the cache is never consulted once a server answered.
+func checkLDAPVerdict(c *km.Ctx, s *km.Sem, pa, upd *ssa.Function) {
+	r := c.R
+	checkLDAP := authutilPkg + ".CheckLDAPUserPassword"
+	argon := authutilPkg + ".Argon2CompareHashAndPassword"
+	// functions of the package reachable from the entry point, the refresh helper excluded
+	reach := reachableFrom(c, map[*ssa.Function]bool{upd: true}, pa)
+	var fns []*ssa.Function
+	for _, fn := range sortedFuncs(reach) {
+		if fn != upd && fn.Pkg != nil && fn.Pkg.Pkg.Path() == ldapPkg {
+			fns = append(fns, fn)
+		}
+	}
+	// which parameters carry the submitted user name / password
+	tags := map[*ssa.Parameter]string{pa.Params[1]: "user", pa.Params[2]: "password"}
+	var tagOf func(v ssa.Value) string
+	tagOf = func(v ssa.Value) string {
+		v = km.Unwrap(v)
+		switch x := v.(type) {
+		case *ssa.Parameter:
+			return tags[x]
+		case *ssa.Convert:
+			return tagOf(x.X)
+		}
+		return ""
+	}
+	for changed := true; changed; {
+		changed = false
+		for _, fn := range fns {
+			for _, ci := range km.CallsIn(fn) {
+				g := km.StaticCallee(ci.Common())
+				if g == nil || !reach[g] || g.Pkg == nil || g.Pkg.Pkg.Path() != ldapPkg {
+					continue
+				}
+				args := km.CallArgs(ci.Common())
+				for i, p := range g.Params {
+					if i < len(args) && tags[p] == "" {
+						if t := tagOf(args[i]); t != "" {
+							tags[p] = t
+							changed = true
+						}
+					}
+				}
+			}
+		}
+	}
+	var ldapCalls, updCalls, getCalls []*ssa.Call
+	for _, fn := range fns {
+		for _, ci := range km.CallsIn(fn) {
+			cl, ok := ci.(*ssa.Call)
+			if !ok {
+				continue
+			}
+			switch km.CalleeFull(cl.Common()) {
+			case checkLDAP:
+				ldapCalls = append(ldapCalls, cl)
+			case ldapPA + "updateOrDeletePasswordHash":
+				updCalls = append(updCalls, cl)
+			case storeIface + "GetSigned":
+				getCalls = append(getCalls, cl)
+			}
+		}
+	}
+	if len(ldapCalls) == 0 || len(updCalls) == 0 || len(getCalls) == 0 {
+		r.AnchorLost("R-C07-1", sprintf("CheckLDAPUserPassword (%d) / updateOrDeletePasswordHash (%d) / GetSigned (%d) calls reachable from passwordAuthenticate", len(ldapCalls), len(updCalls), len(getCalls)))
+		return
+	}
+	isLDAP := func(cl *ssa.Call) bool {
+		for _, l := range ldapCalls {
+			if l == cl {
+				return true
+			}
+		}
+		return false
+	}
+	// answeredBy: the directory calls whose err == nil is among the facts
+	answeredBy := func(k km.Conj) []*ssa.Call {
+		var out []*ssa.Call
+		for _, f := range k.List() {
+			if f.Op == token.EQL && km.IsNilConst(f.Y) {
+				if cl, idx := callRes(f.X); cl != nil && idx == 1 && isLDAP(cl) {
+					out = append(out, cl)
+				}
+			}
+		}
+		return out
+	}
+	cacheAccepts := func(k km.Conj) (bool, string) {
+		for _, g := range getCalls {
+			getOK := primErrNilCall("GetSigned err==nil", g, 2)
+			found := km.Prim{Name: "record found", Direct: func(f km.Fact) bool {
+				cl, idx := callRes(f.X)
+				return f.Op == token.ILLEGAL && f.Pol && cl == g && idx == 0
+			}}
+			match := km.Prim{Name: "hash matches", Direct: func(f km.Fact) bool {
+				cl, ok := f.X.(*ssa.Call)
+				if f.Op != token.EQL || !km.IsNilConst(f.Y) || !ok || km.CalleeFull(cl.Common()) != argon {
+					return false
+				}
+				gc, gi := callRes(km.Unwrap(cl.Common().Args[0]))
+				return gc == g && gi == 1 && tagOf(cl.Common().Args[1]) == "password"
+			}}
+			ga := km.CallArgs(g.Common())
+			typ, tOK := km.ConstInt(ga[2])
+			if s.Holds(k, getOK) && s.Holds(k, found) && s.Holds(k, match) && tagOf(ga[1]) == "user" && tOK && typ == 1 {
+				return true, ""
+			}
+		}
+		return false, "no GetSigned(user, passwordDataType) record found without error whose hash matches the submitted password"
+	}
+	union := func(a, b km.Conj) km.Conj {
+		for _, f := range b.List() {
+			a = a.With(f)
+		}
+		return a
+	}
+	type leaf struct {
+		val   ssa.Value
+		k     km.Conj // facts of every frame on the way
+		frame *ssa.Function
+		ret   ssa.Instruction // the return of the frame that produced val
+	}
+	// leaves: where a verdict value comes from, followed through helper returns
+	var leaves func(k km.Conj, fn *ssa.Function, ret ssa.Instruction, v ssa.Value, depth int) []leaf
+	leaves = func(k km.Conj, fn *ssa.Function, ret ssa.Instruction, v ssa.Value, depth int) []leaf {
+		v = km.Unwrap(v)
+		if cl, _ := callRes(v); cl != nil && !isLDAP(cl) && depth < 4 {
+			if cases, ok := s.ResultCases(k, v); ok {
+				var out []leaf
+				for _, rc := range cases {
+					out = append(out, leaves(union(k, rc.K), rc.Fn, rc.Ret, rc.Val, depth+1)...)
+				}
+				return out
+			}
+		}
+		return []leaf{{v, k, fn, ret}}
+	}
+	helperRanBefore := func(at ssa.Instruction) bool {
+		for _, u := range updCalls {
+			if u.Parent() == at.Parent() && km.InstrDominates(u, at) {
+				return true
+			}
+		}
+		return false
+	}
+	// ---- every returned verdict
+	nDir, nCache := 0, 0
+	for _, rc := range s.RetCases(pa) {
+		type verdict struct{ dir, cache, refuse int }
+		var vd verdict
+		var problems []string
+		for _, k := range rc.State {
+			for _, lf := range leaves(k, pa, rc.Ret, rc.Results[0], 0) {
+				ans := answeredBy(lf.k)
+				cl, idx := callRes(lf.val)
+				switch {
+				case cl != nil && isLDAP(cl) && idx == 0:
+					// the directory's own boolean
+					okAns := false
+					for _, a := range ans {
+						if a == cl {
+							okAns = true
+						}
+					}
+					if !okAns {
+						problems = appendUniq(problems, "directory boolean returned without err == nil of that call")
+					}
+					if !helperRanBefore(rc.Ret) && !(lf.ret != nil && helperRanBefore(lf.ret)) {
+						problems = appendUniq(problems, "the refresh/evict helper does not run before the directory verdict is returned")
+					}
+					vd.dir++
+				case km.ValStr(lf.val) == "false":
+					if len(ans) > 0 {
+						problems = appendUniq(problems, "a constant refusal replaces the verdict of a directory that answered")
+					}
+					vd.refuse++
+				default:
+					// constant true, or a comparison that is the acceptance condition itself
+					kk := lf.k
+					if _, isC := lf.val.(*ssa.Const); !isC {
+						for _, f := range c.F.CondFacts(lf.val, true) {
+							kk = kk.With(f)
+						}
+					}
+					if len(ans) > 0 {
+						problems = appendUniq(problems, "an acceptance other than the directory's boolean is returned although a directory answered")
+					}
+					if ok, why := cacheAccepts(kk); !ok {
+						problems = appendUniq(problems, why+" (verdict "+km.ValStr(lf.val)+")")
+					}
+					vd.cache++
+				}
+			}
+		}
+		sort.Strings(problems)
+		switch {
+		case vd.dir > 0:
+			nDir++
+			r.Add("R-C07-1", km.FuncName(pa), "return of the directory's verdict", posOf(c, rc.Ret), "returns exactly CheckLDAPUserPassword's boolean on its err == nil edge, after updateOrDeletePasswordHash ran", sprintf("directory=%d cache=%d refusals=%d %v", vd.dir, vd.cache, vd.refuse, problems), len(problems) == 0)
+		case vd.cache > 0:
+			nCache++
+			r.Add("R-C07-3", km.FuncName(pa), "cache acceptance", posOf(c, rc.Ret), "GetSigned(user, passwordDataType) returned a record without error and its hash matches the submitted password; no directory answered", sprintf("cache=%d refusals=%d %v", vd.cache, vd.refuse, problems), len(problems) == 0)
+		default:
+			if len(problems) > 0 {
+				r.Add("R-C07-1", km.FuncName(pa), "refusal", posOf(c, rc.Ret), "a refusal never replaces the verdict of a directory that answered", sprintf("%v", problems), false)
+			}
+		}
+	}
+	if nDir == 0 {
+		r.Add("R-C07-1", km.FuncName(pa), "return of the directory's verdict", c.P.Pos(pa.Pos()), "a return carrying the directory's boolean exists", "none", false)
+	}
+	if nCache == 0 {
+		r.AnchorLost("R-C07-3", "a return of passwordAuthenticate that accepts from the cache")
+	}
+	// ---- the refresh/evict helper only ever runs with a directory verdict about the submitted credentials
+	for _, u := range updCalls {
+		a := km.CallArgs(u.Common())
+		var problems []string
+		for _, k := range c.F.At(u) {
+			for _, lf := range leaves(k, u.Parent(), nil, a[1], 0) {
+				cl, idx := callRes(lf.val)
+				good := false
+				if cl != nil && isLDAP(cl) && idx == 0 {
+					for _, an := range answeredBy(lf.k) {
+						if an == cl {
+							good = true
+						}
+					}
+				}
+				if !good {
+					problems = appendUniq(problems, "verdict argument "+km.ValStr(lf.val)+" is not a directory boolean on its err == nil edge")
+				}
+			}
+		}
+		if tagOf(a[2]) != "user" || tagOf(a[3]) != "password" {
+			problems = appendUniq(problems, "user/password arguments are not the submitted ones")
+		}
+		sort.Strings(problems)
+		r.Add("R-C07-1", km.FuncName(u.Parent()), "refresh/evict runs only on a directory verdict", posOf(c, u), "updateOrDeletePasswordHash(directory boolean, submitted user, submitted password) on the directory's err == nil edge", sprintf("%v", problems), len(problems) == 0)
+	}
+	// ---- the directory is asked about the submitted credentials
+	for _, l := range ldapCalls {
+		la := l.Common().Args
+		bindOK := false
+		if bc, ok := km.Unwrap(la[1]).(*ssa.Call); ok && km.CalleeFull(bc.Common()) == ldapPkg+".convertToBindDN" && tagOf(bc.Common().Args[0]) == "user" {
+			bindOK = true
+		}
+		pwOK := tagOf(la[2]) == "password"
+		r.Add("R-C07-1", km.FuncName(l.Parent()), "directory asked about the submitted credentials", posOf(c, l), "bind DN built from the submitted user; password is the submitted password", sprintf("bindDN-from-user=%v password=%v", bindOK, pwOK), bindOK && pwOK)
+	}
+	// ---- the cache is never consulted once a server answered
+	for _, l := range ldapCalls {
+		fl := l.Parent()
+		// blocks of fl reachable from the err == nil edge of l
+		answered := map[*ssa.BasicBlock]bool{}
+		for _, ref := range *l.Referrers() {
+			ex, ok := ref.(*ssa.Extract)
+			if !ok || ex.Index != 1 {
+				continue
+			}
+			for _, r2 := range *ex.Referrers() {
+				b, ok := r2.(*ssa.BinOp)
+				if !ok || (b.Op != token.NEQ && b.Op != token.EQL) || !km.IsNilConst(b.Y) {
+					continue
+				}
+				for _, r3 := range *b.Referrers() {
+					if iff, ok := r3.(*ssa.If); ok {
+						okEdge := iff.Block().Succs[1]
+						if b.Op == token.EQL {
+							okEdge = iff.Block().Succs[0]
+						}
+						for bb := range km.ReachableBlocks(okEdge, nil) {
+							answered[bb] = true
+						}
+					}
+				}
+			}
+		}
+		if len(answered) == 0 {
+			r.Add("R-C07-1", km.FuncName(fl), "cache unreachable once a server answered", posOf(c, l), "the error of CheckLDAPUserPassword is tested", "no err == nil test found", false)
+			continue
+		}
+		for _, g := range getCalls {
+			okG, found := true, "cache consulted only after every server failed to answer"
+			// the instruction(s) leading to the cache lookup in the frame that (directly or through one helper) holds l
+			leadsTo := func(fn *ssa.Function) []ssa.Instruction {
+				var out []ssa.Instruction
+				if g.Parent() == fn {
+					out = append(out, g)
+				}
+				for _, ci := range km.CallsIn(fn) {
+					if callee := km.StaticCallee(ci.Common()); callee != nil && callee != upd {
+						if reachableFrom(c, map[*ssa.Function]bool{upd: true}, callee)[g.Parent()] {
+							out = append(out, ci)
+						}
+					}
+				}
+				return out
+			}
+			for _, site := range leadsTo(fl) {
+				if answered[site.Block()] {
+					okG, found = false, "the cache lookup (or the call leading to it) at "+posOf(c, site)+" is reachable from the edge on which the directory answered"
+				}
+			}
+			// callers of fl: at a site leading to the cache, the facts must exclude every answered return of fl
+			for _, cs := range c.G.Callers[fl] {
+				if !reach[cs.Caller] {
+					continue
+				}
+				call, isCall := cs.Instr.(*ssa.Call)
+				if !isCall {
+					continue
+				}
+				for _, site := range leadsTo(cs.Caller) {
+					if site == cs.Instr {
+						continue
+					}
+					for _, k := range c.F.At(site) {
+						cases, _ := s.ResultCases(k, call)
+						for _, rc := range cases {
+							if answered[rc.Ret.Block()] {
+								okG, found = false, "at "+posOf(c, site)+" the cache can be consulted after "+fl.Name()+" returned from the edge on which the directory answered ("+posOf(c, rc.Ret)+")"
+							}
+						}
+					}
+				}
+			}
+			r.Add("R-C07-1", km.FuncName(fl), "cache unreachable once a server answered", posOf(c, g), "no path from the err == nil edge of CheckLDAPUserPassword to the cache lookup, in this function or through its callers", found, okG)
 		}
 	}
 }
